@@ -8,6 +8,7 @@ import (
 	"io"
 	"math/rand"
 	"net"
+	"net/http"
 	"net/url"
 	"strings"
 	"time"
@@ -378,7 +379,14 @@ func c10(c *ctx) {
 				if variant&1 == 1 {
 					d.Protocols = []string{"chat", "superchat", "v2.x"}
 					wantProtos = d.Protocols
-					d.Header = ws.HandshakeHeaderString("X-Client: verif\r\nOrigin: http://o.example\r\n")
+					switch (ci + variant) % 3 {
+					case 0:
+						d.Header = ws.HandshakeHeaderString("X-Client: verif\r\nOrigin: http://o.example\r\n")
+					case 1:
+						d.Header = ws.HandshakeHeaderBytes([]byte("X-Client: verif\r\nOrigin: http://o.example\r\n"))
+					default:
+						d.Header = ws.HandshakeHeaderHTTP(http.Header{"X-Client": []string{"verif"}, "Origin": []string{"http://o.example"}})
+					}
 					wantExtra = true
 				}
 				if variant&2 == 2 {
